@@ -15,8 +15,22 @@ from .arr import SymArr, from_list, new_array
 from .core import Ctx, SymBool, SymNum, concrete_value, is_sym
 
 
+_WRAP_MEMO = {}
+
+
 def wrap(x):
-    """numpy / python value -> concrete V / SymArr (python floats, direct lookups)."""
+    """numpy / python value -> concrete V / SymArr; identity preserving within one check_call."""
+    if isinstance(x, (np.ndarray, tuple, list, dict)):
+        hit = _WRAP_MEMO.get(id(x))
+        if hit is not None and hit[0] is x:
+            return hit[1]
+        w = _wrap(x)
+        _WRAP_MEMO[id(x)] = (x, w)
+        return w
+    return _wrap(x)
+
+
+def _wrap(x):
     if isinstance(x, np.ndarray):
         if x.dtype == object:
             shape = x.shape
@@ -108,6 +122,7 @@ class ConcreteOutcome:
 def check_call(contract, args, kwargs, tol=None):
     """Run the REAL function natively on concrete (args, kwargs) and evaluate the contract."""
     out = ConcreteOutcome()
+    _WRAP_MEMO.clear()
     func = contract.func()
     snaps = []
     _snapshot_bytes((args, kwargs), snaps)
@@ -120,6 +135,7 @@ def check_call(contract, args, kwargs, tol=None):
         S.Tol.rtol, S.Tol.atol = tol
     try:
         wa = contract.bind(tuple(wrap(a) for a in args), {k: wrap(v) for k, v in kwargs.items()})
+        out.bound = wa
         c.in_spec += 1
         try:
             req, _ = S.evaluate(contract.requires(wa))
